@@ -8,6 +8,7 @@ pub mod c09;
 pub mod c10;
 pub mod c14;
 pub mod c15;
+pub mod c16;
 pub mod c20;
 
 pub fn run(session: &Session) -> i32 {
@@ -18,6 +19,7 @@ pub fn run(session: &Session) -> i32 {
         "C10" => c10::run(session),
         "C14" => c14::run(session),
         "C15" => c15::run(session),
+        "C16" => c16::run(session),
         "C20" => c20::run(session),
         other => {
             println!("INCONCLUSIVE property={other} no check registered");
@@ -34,6 +36,7 @@ pub fn replay(session: &Session, path: &Path) -> i32 {
         "C10" => crate::engine::replay(session, &c10::C10, path),
         "C14" => crate::engine::replay(session, &c14::C14, path),
         "C15" => crate::engine::replay(session, &c15::C15, path),
+        "C16" => crate::engine::replay(session, &c16::C16, path),
         "C20" => crate::engine::replay(session, &c20::C20, path),
         other => {
             println!("INCONCLUSIVE property={other} no check registered");
